@@ -78,11 +78,35 @@ def part_b(tier, seed, rng, wd, v, replay):
             sid += 1
             steps = [{"k": "hb", "inst": "i1"}, {"k": "hb", "inst": "i2"}]
             t = 0
+            # the global limit is changed now and then (a new run of the bucket): the rate alone, the burst alone, both - and BACK to an
+            # earlier configuration (A -> B -> A), which an "unchanged, nothing to do" comparison against a stale value would skip
+            cfgs = [(q, b)]
             for k, c in enumerate(lg):
                 if c["t"] > t:
                     steps.append({"k": "sleep", "ms": c["t"] - t})
                     t = c["t"]
                 steps.append({"k": "acquire", "up": "ut", "inst": "i%d" % (1 + k % 2), "tokens": c["ask"], "id": 0})
+                if sid % 2 == 0 and rng.random() < 0.2:
+                    cq, cb = cfgs[-1]
+                    if len(cfgs) >= 2 and rng.random() < 0.5:
+                        nq, nb = cfgs[-2]
+                    else:
+                        nq, nb = rng.choice([(cq * 50, cb), (max(1, cq // 2), cb), (cq, cb * 2), (cq * 3, cb * 3), (cq, max(1, cb // 2))])
+                    if (nq, nb) != (cq, cb):
+                        cfgs.append((nq, nb))
+                        steps.append({"k": "limit", "up": "ut", "max": nq, "burst": nb})
+            scs.append({"id": sid, "shards": 1, "servers": ["A"], "store": "local", "qps": q, "burst": b,
+                        "upstreams": [{"name": "ut", "type": "tb", "strategy": "globalCount", "max": q, "burst": b}], "steps": steps})
+    # directed: the rate goes A -> B -> A (B much larger / much smaller) with the burst left alone, then the bucket is hammered
+    for (q, b) in ((4, 8), (1, 1), (10, 10), (3, 7)):
+        for fac in (50, 0):
+            sid += 1
+            q2 = q * fac if fac else max(1, q // 3)
+            steps = [{"k": "hb", "inst": "i1"}, {"k": "hb", "inst": "i2"}, {"k": "acquire", "up": "ut", "inst": "i1", "tokens": b, "id": 0},
+                     {"k": "limit", "up": "ut", "max": q2 if q2 != q else q + 5, "burst": b}, {"k": "sleep", "ms": 300}, {"k": "acquire", "up": "ut", "inst": "i2", "tokens": b, "id": 0},
+                     {"k": "sleep", "ms": 300}, {"k": "limit", "up": "ut", "max": q, "burst": b}]
+            for k in range(30):
+                steps += [{"k": "acquire", "up": "ut", "inst": "i%d" % (1 + k % 2), "tokens": b + 2, "id": 0}, {"k": "sleep", "ms": 100}]
             scs.append({"id": sid, "shards": 1, "servers": ["A"], "store": "local", "qps": q, "burst": b,
                         "upstreams": [{"name": "ut", "type": "tb", "strategy": "globalCount", "max": q, "burst": b}], "steps": steps})
     binp = os.path.join(wd, "limsrv.test")
@@ -94,7 +118,14 @@ def part_b(tier, seed, rng, wd, v, replay):
     tl = []
     for sid_, t in traces.items():
         evs = []
+        run = 0
+        cq, cb = sc_by_id[sid_]["qps"], sc_by_id[sid_]["burst"]
         for e in t["events"]:
+            if e["k"] == "limit":      # a new run with the CONFIGURED limits
+                if evs:
+                    tl.append({"id": "%s/%d" % (sid_, run), "qps": cq, "burst": cb, "idle": False, "events": evs})
+                evs, run, cq, cb = [], run + 1, e["max"], e["burst"]
+                continue
             if e["k"] != "acquire":
                 continue
             if "err" in e:
@@ -104,7 +135,8 @@ def part_b(tier, seed, rng, wd, v, replay):
             if e["tokens"] < 0 and (e["accept"] or not e.get("rerr")):
                 v.violation("tb-neg-%s" % sid_, {"scenario": sc_by_id[sid_], "event": e, "what": "negative ask not refused"})
             evs.append({"t": e["now"] - 946684800000, "ask": e["tokens"], "grant": grant})
-        tl.append({"id": int(sid_), "qps": sc_by_id[sid_]["qps"], "burst": sc_by_id[sid_]["burst"], "idle": False, "events": evs})
+        if evs:
+            tl.append({"id": "%s/%d" % (sid_, run), "qps": cq, "burst": cb, "idle": False, "events": evs})
     tr_p = os.path.join(wd, "tb.ndjson")
     vlib.write_ndjson(tr_p, tl)
     tv = vlib.tlc("flow", "TraceTokens", "TraceTokens.cfg", workers=8, timeout=1200, consts={"TraceFile": '"%s"' % tr_p})
@@ -114,7 +146,7 @@ def part_b(tier, seed, rng, wd, v, replay):
         if l.startswith('<<"REJECT"'):
             parts = [x.strip().strip('"') for x in l.strip("<>").split(",")]
             nrej += 1
-            v.violation("tb-trace-%s" % parts[1], {"scenario": sc_by_id[parts[1]], "grants": by_id[parts[1]], "clause": parts[2],
+            v.violation("tb-trace-%s" % parts[1].replace("/", "-"), {"scenario": sc_by_id[parts[1].split("/")[0]], "grants": by_id[parts[1]], "clause": parts[2],
                                                     "what": "token grants violate the window bound burst + qps*T / the range 0..ask"})
     out["states"] += tv.distinct
     out["transitions"] += tv.generated
